@@ -426,6 +426,10 @@ func (s *Session) writeCompressed(rw io.ReadWriter, p *Proposal) (err error) {
 		s.log.Println("GZIP_EXPERIMENT:", "Transmitting gzip compressed message.")
 	}
 
+	if p.offset > len(p.compressedData) {
+		return fmt.Errorf("Remote requested %s at offset %d, but the message is only %d bytes", p.MID(), p.offset, len(p.compressedData))
+	}
+
 	writer := bufio.NewWriter(rw)
 
 	var (
